@@ -69,6 +69,23 @@ def marked_values(hist):
     return sorted(set(out))
 
 
+def exempt_values(hist):
+    """payloads of the constants the program exempts from parameterisation (term kind noparam)"""
+    out = []
+
+    def walk(x):
+        if isinstance(x, dict):
+            if x.get("k") == "noparam":
+                out.append(x["n"])
+            for v in x.values():
+                walk(v)
+        elif isinstance(x, list):
+            for v in x:
+                walk(v)
+    walk(hist)
+    return sorted(set(out))
+
+
 def place(env, Q, q, pos, kind, hist=()):
     P = env.P
     o = P.Table("ot")
@@ -165,7 +182,7 @@ def run(tier: str) -> int:
                 if not inline:
                     continue
                 events.append({"tid": len(events), "d": d, "inline": canon_nums(lexer.slim(lexer.lex(inline, ld))), "param": canon_nums(lexer.slim(lexer.lex(param, ld))),
-                               "vals": [describe(v) for v in vals], "marked": marked_values(h["hist"])})
+                               "vals": [describe(v) for v in vals], "marked": marked_values(h["hist"]), "exempt": exempt_values(h["hist"])})
                 meta.append((d, h, pos, inline, param, vals))
                 if d == "sqlite":
                     engine += 1
@@ -194,8 +211,14 @@ def run(tier: str) -> int:
                             {"dialect": d, "position": pos, "calls": h["hist"], "inline": inline, "param": param, "values": repr(vals)},
                             what=f"parameterised rendering: {v['fault']}")
         if v["residue"]:
-            rep.discrepancy([[d, pos, "residue", h["kind"]]], {"dialect": d, "position": pos, "calls": h["hist"], "param": param, "left_inline": sorted(v["residue"])},
-                            what="a parameterised value's text remains in the SQL")
+            ex = [x for x in v["residue"] if x.startswith("exempt-constant-parameterised:")]
+            rest = sorted(set(v["residue"]) - set(ex))
+            if ex:
+                rep.discrepancy([[d, pos, "exempt-parameterised", h["kind"]]], {"dialect": d, "position": pos, "calls": h["hist"], "param": param, "inline": inline, "exempt": ex},
+                                what="a constant exempt from parameterisation (allow_parametrize=False) is bound as a parameter")
+            if rest:
+                rep.discrepancy([[d, pos, "residue", h["kind"]]], {"dialect": d, "position": pos, "calls": h["hist"], "param": param, "left_inline": rest},
+                                what="a parameterised value's text remains in the SQL")
     for k in (0, len(meta) // 2, len(meta) - 1):
         rep.sample({"dialect": meta[k][0], "position": meta[k][2], "inline": meta[k][3], "param": meta[k][4], "values": repr(meta[k][5])})
     rep.rule = ("TLC grows value-bearing programs (5 statement kinds; select list constants, arithmetic, CASE, function args, arrays, GROUP BY expressions, HAVING, "
